@@ -449,6 +449,9 @@ func stimReplay(prop string) func(c *harness.Ctx, raw json.RawMessage) {
 						return c04ScnFor(prop, p, 3)
 					}
 				}
+				if s := c04StallEventLookup(prop, name); s != nil {
+					return s
+				}
 				return nil
 			})(c, raw)
 			return
@@ -734,6 +737,18 @@ func c09Check(c *harness.Ctx) {
 	idx := 0
 	if !c09SecondSession(c, &idx) {
 		return
+	}
+	if stimCollector == nil {
+		// NOTIFICATION / end of stream in Established while plugin goroutines are blocked in WriteUpdate behind
+		// a full window: the reaction of the table (close, OnClose) must not wait for them
+		for i, ev := range c04StallEvents {
+			if !c.Mine(i + 7) {
+				continue
+			}
+			if !exploreScn(c, "C09", c04StallEventScn("C09", ev, 1)) {
+				return
+			}
+		}
 	}
 	run := func(cs stimCase) bool {
 		idx++
